@@ -38,8 +38,11 @@ double nondet_double(void);
 #define KIT_ASSERT(c, msg) __CPROVER_assert((c), "PROP " msg)
 
 /* environment allocator (R3): fresh zero-filled exact-size word block, never fails */
-void *kit_alloc_words(size_t bytes);
+void *kit_alloc_words(size_t bytes);   /* real-code requests: size case-split */
+void *kit_alloc_n(size_t words);        /* harness builders: concrete size, pointer-typed payload */
+void *kit_alloc_in(size_t words);       /* same, integer-typed payload (numeric objects) */
 sexp kit_alloc_tagged(size_t bytes, sexp_uint_t tag);
+sexp kit_big_vector(sexp_uint_t n);
 
 /* minimal context (R4) */
 sexp kit_ctx(void);
